@@ -42,3 +42,60 @@ Proof. eexists. vm_compute. reflexivity. Qed.
 (* the default deformation types of this pair enable single-atom moves; [0; 1] disables them *)
 Lemma ex_deform : eff_deform ex_start ex_end None = [0; 1; 2]%Z /\ ~ In 2%Z (eff_deform ex_start ex_end (Some [0; 1]%Z)).
 Proof. split; [reflexivity|]. simpl. intros [H|[H|[]]]; discriminate. Qed.
+
+(* ------------------------------------------------------------------ a run with passes (STEPS_FACTOR 1: budget 3) *)
+Lemma translate_zero (ps : posR) : translate ps (mk3 0 0 0) = ps.
+Proof.
+  unfold translate. induction ps as [|[x y z] ps IH]; simpl; [reflexivity|]. rewrite IH. f_equal.
+  unfold vadd; cbn. f_equal; lra.
+Qed.
+
+(* one pass of the loop with the null translation: proposal = configuration held, equal measure, accepted
+   without a draw, not a new minimum, counter + 1 *)
+Lemma null_pass (calc : chi2_calc R) (tb : tableR) (ss : R) (sim : list nat) (n f : nat)
+    (st : state R posR) (s : stream R (pdraw R (adraw R))) (i : nat) :
+  (counter st < n)%nat -> nth_error sim i = Some 0%nat ->
+  (exists v, chi2_call calc (held st) = Ok v) ->
+  e_held st = chi2_tot calc (held st) -> e_min st <= e_held st ->
+  mc_loop posR (pdraw R (adraw R)) (chi2_tot calc) (propose cos sin calc tb ss) sim n (S f) st
+          (DChoice i :: DProp (PTrans (mk3 0 0 0)) :: s) =
+  (let st' := mkState (held st) (e_held st) (e_min st) (S (counter st)) in
+   let (tr, out) := mc_loop posR (pdraw R (adraw R)) (chi2_tot calc) (propose cos sin calc tb ss) sim n f st' s in
+   (mkStep st 0%nat (held st) (e_held st) None true false st' :: tr, out)).
+Proof.
+  intros Hc Hi [v Hv] He Hm.
+  cbn [mc_loop]. replace (Nat.leb n (counter st)) with false by (symmetry; apply Nat.leb_gt; exact Hc).
+  unfold mc_step. unfold nth_res. rewrite Hi. cbn [bind].
+  assert (Hp : propose cos sin calc tb ss 0 (PTrans (mk3 0 0 0)) (held st) = Ok (held st)).
+  { unfold propose. cbn [propose_geo bind]. rewrite translate_zero. rewrite Hv. reflexivity. }
+  rewrite Hp. cbn [bind].
+  rewrite <- He.
+  unfold accept_metropolis.
+  replace (@sleb R RScalar (e_held st) (e_held st)) with true by (symmetry; apply sleb_R; lra).
+  cbn [bind].
+  replace (@sltb R RScalar (e_held st) (e_min st)) with false by (symmetry; apply sltb_R_false; exact Hm).
+  cbn [andb]. reflexivity.
+Qed.
+
+Definition ex_stream3 : stream R (pdraw R (adraw R)) :=
+  [DChoice 0; DProp (PTrans (mk3 0 0 0)); DChoice 0; DProp (PTrans (mk3 0 0 0)); DChoice 0; DProp (PTrans (mk3 0 0 0))].
+
+Lemma ex_run3_ok : exists r,
+  align_with cos sin 1 ex_start ex_end (Some ex_restr) (Some [0%Z]) true true ex_stream3 3 = Ok r /\
+  map sr_acc (ar_trace r) = [true; true; true] /\ map sr_kind (ar_trace r) = [0; 0; 0]%nat.
+Proof.
+  unfold align_with.
+  destruct (align_prep 1 ex_start ex_end (Some ex_restr) (Some [0%Z]) true true) as [[s1 o]|e] eqn:E;
+    vm_compute in E; [|discriminate].
+  injection E as <- <-. cbn [bind fst snd].
+  unfold run_opt, mc_run, init_state, ex_stream3. cbn [oc_args oc_calc oc_sim ma_table ma_sigma ma_steps ma_mobile].
+  match goal with |- context [mc_loop _ _ (chi2_tot ?c) _ _ _ _ (mkState ?init _ _ _) _] =>
+    assert (Hv : exists v, chi2_call c init = Ok v) by (vm_compute; eexists; reflexivity) end.
+  rewrite null_pass; [|cbn; lia|reflexivity|exact Hv|reflexivity|cbn [e_min e_held]; apply Rle_refl].
+  cbn [held e_held e_min counter].
+  rewrite null_pass; [|cbn; lia|reflexivity|exact Hv|reflexivity|cbn [e_min e_held]; apply Rle_refl].
+  cbn [held e_held e_min counter].
+  rewrite null_pass; [|cbn; lia|reflexivity|exact Hv|reflexivity|cbn [e_min e_held]; apply Rle_refl].
+  cbn [held e_held e_min counter mc_loop Nat.leb bind].
+  eexists. split; [vm_compute; reflexivity|]. split; reflexivity.
+Qed.
